@@ -367,6 +367,14 @@ package desync
 //# jobs carry the planner's segments (first <= last < number of chunks of the index being assembled: SeedSequencer.Next/Plan);
 //# the hand-over through the channel is not tracked, the fact is assumed where the self-seed needs it
 //@   lit 1: assume@before:add 0 <= job.segment.first && job.segment.first <= job.segment.last && job.segment.last < len(ss.index.Chunks)
+//# C07: a worker returns nil only by running off the end of the closed job channel, and every job it took
+//# from the channel is completed (recorded in the self-seed) before it takes the next one
+//@   lit 1: ghost@entry $done = false
+//@   lit 1: ghost@loop1.exit $done = true
+//@   lit 1: ensures @C07 r0 == nil ==> $done
+//@   lit 1: ghost@loop1.head $marked = 0
+//@   lit 1: ghost@after:add $marked = 1
+//@   lit 1: assert@loop1.iterend @C07 $marked == 1
 //@   lit 1: requires held(ss.mu) == 0
 //@   lit 1: loop 1: invariant held(ss.mu) == 0
 //@   lit 1: ghost@loop1.head $regen = false
@@ -381,6 +389,10 @@ package desync
 
 //@ func (p Plan) Validate
 //@   prop C07
+//# a validation worker returns nil only by running off the end of the closed job channel
+//@   lit 1: ghost@entry $done = false
+//@   lit 1: ghost@loop1.exit $done = true
+//@   lit 1: ensures r0 == nil ==> $done
 //@   ghost@entry $eof = false
 //@   ghost@loop4.exit $eof = true
 //@   ensures !MockValidate && err == nil ==> $eof
@@ -391,6 +403,10 @@ package desync
 //@   requires wfChunker(&c) && len(hashTable) == 256 && (forall b int :: 0 <= b && b < 256 ==> hashTable[b] == tbl(b))
 //@   loop 2: invariant wfChunker(&c) && len(hashTable) == 256 && (forall b int :: 0 <= b && b < 256 ==> hashTable[b] == tbl(b))
 //@   chan in: len(v.b) > 0
+//# a worker returns nil only by running off the end of the closed job channel; every job it took was stored
+//@   lit 2: ghost@entry $done = false
+//@   lit 2: ghost@loop1.exit $done = true
+//@   lit 2: ensures @C07 r0 == nil ==> $done
 //@   ghost@entry $eof = false
 //@   ghost@after:Next $eof = (len($r1) == 0 && $r2 == nil)
 //@   ensures r1 == nil ==> $eof
@@ -444,6 +460,9 @@ package desync
 //@   safety none
 //# C03: what a worker hands to the assembler for an index row is the plain form of a chunk the store returned
 //# for that row's ID (digest equal to the ID unless that store skips verification) and has the row's size
+//@   lit 1: ghost@entry $done = false
+//@   lit 1: ghost@loop1.exit $done = true
+//@   lit 1: ensures @C07 r0 == nil ==> $done
 //@   lit 1: assert@send:r.data @C03 (H(bytes(v)) == r.chunk.ID || s.$skip) && len(v) == r.chunk.Size
 //@   requires n >= 1 && $consumed >= 0
 //@   lit 4: requires $consumed >= 0
@@ -1306,7 +1325,7 @@ package desync
 //@   oncall IndexStore.GetIndex: requires $arg0 == indexName
 
 //@ func (h HTTPIndexHandler) put
-//@   prop C15
+//@   prop C15 C04
 //@   safety none
 //@   requires $consumed >= 0
 //@   ghost@entry $last = nil
@@ -1874,3 +1893,23 @@ package desync
 //@   ghost@after:Lock $snap = s.written
 //@   loop 1: invariant held(s.mu) == 1 && s.written >= $snap && 0 <= s.written && s.written <= len(s.index.Chunks) && (forall k int :: has(s.cache, k) ==> k < s.cache[k] && s.cache[k] <= len(s.index.Chunks))
 //@   loop 2: invariant held(s.mu) == 1 && s.written >= $snap && s.written <= i && i <= next && next <= len(s.index.Chunks) && 0 <= s.written && (forall k int :: has(s.cache, k) ==> k < s.cache[k] && s.cache[k] <= len(s.index.Chunks))
+
+// ---------------------------------------------------------------------------------------------
+// C14: request bodies are produced anew for every attempt. A retried PUT must carry the whole
+// object again, so the body factory handed to the retry loop returns a reader created by that very
+// call (never one that an earlier attempt may have drained), and what is written into it is the
+// index itself.
+
+//@ func (r *RemoteHTTPIndex) StoreIndex
+//@   prop C14
+//@   safety none
+//@   requires adjChunks(idx.Chunks)
+//@   lit 1: requires adjChunks(idx.Chunks)
+//@   lit 1: ensures fresh(r0)
+//@   lit 1: lit 1: requires adjChunks(idx.Chunks)
+//@   lit 1: lit 1: oncall WriteTo: requires $arg0 == w
+
+//@ func (r *RemoteHTTP) StoreChunk
+//@   prop C14
+//@   safety none
+//@   lit 1: ensures fresh(r0)
